@@ -15,7 +15,8 @@ RULE = ('filters = atoms, lists of <=2 atoms/operator objects, operator objects 
         'and S3 cassettes over stores with heterogeneous metadata, alone and with a second lookup (other filter) open on '
         'the same cassette. Oracle: reference model written from the '
         'statement (pbt/refmatch.py); result must be a bool, equal to the reference where the statement speaks, '
-        'identical on a second call, and no call may raise. Non-trivial: filter is a list or operator object, or '
+        'identical on a second call and when the filter dict is one that held another filter before and was updated in '
+        'place, and no call may raise. Non-trivial: filter is a list or operator object, or '
         'the recorded value is absent, or filter and recorded value have different types. Distinct = distinct '
         '(filter, metadata) pair.')
 ASSUMPTIONS = ['metadata values are JSON-shaped (None, bool, number, str, list, str-keyed dict)',
@@ -68,7 +69,24 @@ def case_desc(filter_by, metadata):
     return {'filter': filter_by, 'metadata': metadata}
 
 
+def check_pair_after(ctx, previous, filter_by, metadata):
+    """The caller keeps ONE filter dict and updates it in place between lookups (a search form): the answer must be
+    that of the filter's current value."""
+    import copy
+    obj = copy.deepcopy(previous)
+    try:
+        _matcher()(obj, copy.deepcopy(metadata))
+    except Exception:  # pylint: disable=broad-except
+        pass     # totality of that call is the matter of its own case
+    obj.clear()
+    obj.update(copy.deepcopy(filter_by))
+    check_pair(ctx, obj, metadata)
+
+
 def replay(ctx, case):
+    if isinstance(case, dict) and case.get('previous_filter') is not None:
+        check_pair_after(ctx, case['previous_filter'], case['filter'], case['metadata'])
+        return
     if isinstance(case, (list, tuple)):
         if len(case) in (2, 3) and isinstance(case[0], list):
             check_listing(ctx, case)
@@ -89,14 +107,20 @@ def exhaustive(ctx):
     filters = singles + lists
     recorded = ATOMS + [[1], ['a'], ABSENT]
     ok = True
+    previous = None
     for f in filters:
         for r in recorded:
             md = {} if r is ABSENT else {'x': r}
             case = case_desc({'x': f}, md)
+            # every case also runs on a filter dict that held the previous case's filter and was updated in place
+            case['previous_filter'] = previous
+            previous = {'x': f}
             ctx.case(case, nontrivial(f, r), classes=('exh:filter=%s' % ('operator' if refmatch.is_operator_object(f)
                                                                        else tname(f)),
                                                       'exh:recorded=%s' % tname(r)))
-            if not guarded(ctx, case, lambda c: check_pair(ctx, c['filter'], c['metadata'])):
+            if not guarded(ctx, case, lambda c: (check_pair(ctx, c['filter'], c['metadata']),
+                                                 c['previous_filter'] is None or check_pair_after(
+                                                     ctx, c['previous_filter'], c['filter'], c['metadata']))):
                 ok = False
                 if len(ctx.violations) >= 5:
                     return False
@@ -116,15 +140,21 @@ op_objects = st.fixed_dictionaries({'operator': st.one_of(st.sampled_from(OPERAT
 filters = st.recursive(st.one_of(json_values, op_objects), lambda c: st.lists(c, max_size=3), max_leaves=5)
 KEYS = ['x', 'y', '_tape_recorder_incomplete_recording', 'z z']
 pairs = st.tuples(st.dictionaries(st.sampled_from(KEYS), filters, max_size=3),
-                  st.dictionaries(st.sampled_from(KEYS), json_values, max_size=4))
+                  st.dictionaries(st.sampled_from(KEYS), json_values, max_size=4),
+                  st.one_of(st.none(), st.dictionaries(st.sampled_from(KEYS), filters, max_size=3)))
 
 
 def random_part(ctx):
     def body(case):
-        f, m = case
+        f, m, prev = case
         nt = any(nontrivial(fv, m.get(k, ABSENT)) for k, fv in f.items())
-        ctx.case(case_desc(f, m), nt, classes=('rnd:keys=%d' % len(f),))
+        desc = case_desc(f, m)
+        desc['previous_filter'] = prev
+        ctx.case(desc, nt, classes=('rnd:keys=%d' % len(f), 'rnd:filter-updated-in-place' if prev is not None else
+                                    'rnd:fresh-filter'))
         check_pair(ctx, f, m)
+        if prev is not None:
+            check_pair_after(ctx, prev, f, m)
 
     holder = []
     ok = hyp_search(ctx, pairs, body, ctx.pick(3000, 60000), label='random')
